@@ -11,7 +11,7 @@
    structures (that would be a verified database stack L1..L3); it is checked by the harness for
    every sampled crash snapshot of generated histories (reopen with DbFile / Db / DbAny, full read,
    state invariants, dump equal to the dump before or after the interrupted query). *)
-From Agdb Require Import Bytes FileWal FileWalProofs TxnNesting CrashProofs.
+From Agdb Require Import Bytes FileWal FileWalProofs TxnNesting CrashProofs CrashGuardProofs.
 Open Scope nat_scope.
 
 Theorem C02_reduction_partial :
@@ -30,3 +30,15 @@ Theorem C02_log_empty_after_recovery :
     wal (recover walrev_fixed (crash st (trace walrev_fixed st ops) k j)) = [].
 Proof. intros. reflexivity. Qed.
 Print Assumptions C02_log_empty_after_recovery.
+
+(* the same for the recovery WITH the position guard of apply_wal_record (recover_g: a log record beyond the
+   current end of the file is an error, None): on every crash cut the guard does not fire, recovery
+   succeeds, the log is empty and the file is the file at some completed flush *)
+Theorem C02_reduction_guarded_partial :
+  forall (d0 : bytes) (ops : list op) (k j : nat),
+    wp d0 ops ->
+    let st := {| data := d0; wal := [] |} in
+    exists r, recover_g walrev_fixed (crash st (trace walrev_fixed st ops) k j) = Some r /\
+              wal r = [] /\ In (data r) (d0 :: flush_points st ops).
+Proof. exact crash_recovers_a_flush_point_g. Qed.
+Print Assumptions C02_reduction_guarded_partial.
